@@ -49,6 +49,10 @@
 #include "acf-can-common.h"
 
 #define MAX_PDU_SIZE                1500
+#ifdef COVESA_OPEN1722_VERIF_MAX_PDU_SIZE    /* verification hook: scaled-down transmit buffer */
+#undef MAX_PDU_SIZE
+#define MAX_PDU_SIZE                COVESA_OPEN1722_VERIF_MAX_PDU_SIZE
+#endif
 #define STREAM_ID                   0xAABBCCDDEEFF0001
 #define CAN_PAYLOAD_MAX_SIZE        16*4
 #define ARGPARSE_CAN_FD_OPTION      500
